@@ -1,4 +1,5 @@
 import ChythonModel.Model.Valence
+import ChythonModel.Model.C04Standardize
 /-!
 Line-protocol driver for C04. Requests (all ints after the op):
 
@@ -7,9 +8,12 @@ Line-protocol driver for C04. Requests (all ints after the op):
 * `calcs z c r hmax N {k {o z}*k}*N` → for each of the N bond lists: `h|-1` and the bitmask of
                                         `check_implicit(h')` for `h' = 0..hmax`, as `h:mask`
 * `implicify <wire>` / `explicify <wire>` → `ok <wire of the result> H <total hydrogens|-1>` | `lib:ValenceError` | `E:KeyError`
+* `stdrule na {pn ch ir(-1|0|1)}*na nb {pn pm bo}*nb ny {pn}*ny nm {len {pn n}*len}*nm <wire>` → one rule of `__standardize` over the
+                                        recorded mappings (rewrite + recount of `hs`): `ok <wire of the result>` | `E:KeyError`
 * `mol <wire molecule>`              → `calc h..|chk (0,1,-1)..|cv ids..|fixcv ids.. ; marks after fix_structure..|q charge|rad 0/1|brutto sym n ..|mass pico`
 -/
 open ChythonModel.Model ChythonModel.Model.Valence ChythonModel.Py ChythonModel.Gen
+open ChythonModel.Model.C04Standardize
 
 def showErr : PyErr → String
   | .indexError => "IndexError"
@@ -78,6 +82,46 @@ def showOp : Except OpErr Mol → String
   | .error .valenceError => "lib:ValenceError"
   | .error .keyError => "E:KeyError"
 
+/-- `k` groups of `w` ints from the front of the list -/
+def takeGroups (w : Nat) : Nat → List Int → Option (List (List Int) × List Int)
+  | 0, rest => some ([], rest)
+  | k+1, rest =>
+    if rest.length < w then none
+    else match takeGroups w k (rest.drop w) with
+      | none => none
+      | some (tl, r) => some (rest.take w :: tl, r)
+
+def counted? (w : Nat) : List Int → Option (List (List Int) × List Int)
+  | k :: rest => takeGroups w k.toNat rest
+  | [] => none
+
+def parseMaps : Nat → List Int → Option (List (List (Nat × Nat)) × List Int)
+  | 0, rest => some ([], rest)
+  | k+1, rest => do
+    let (g, r) ← counted? 2 rest
+    let (tl, r') ← parseMaps k r
+    some (g.map (fun x => ((x.getD 0 0).toNat, (x.getD 1 0).toNat)) :: tl, r')
+
+def handleStdRule (xs : List Int) : String :=
+  let parsed : Option (RuleFix × List (List (Nat × Nat)) × Mol) := do
+    let (af, r1) ← counted? 3 xs
+    let (bf, r2) ← counted? 3 r1
+    let (ay, r3) ← counted? 1 r2
+    let (maps, r4) ← match r3 with
+      | k :: rest => parseMaps k.toNat rest
+      | [] => none
+    let (m, _) ← Mol.parse r4
+    let fx : RuleFix :=
+      { atomFix := af.map fun x => ((x.getD 0 0).toNat, x.getD 1 0, tri (x.getD 2 (-1))),
+        bondsFix := bf.map fun x => ((x.getD 0 0).toNat, (x.getD 1 0).toNat, (x.getD 2 0).toNat),
+        anyAtoms := ay.map fun x => (x.getD 0 0).toNat }
+    some (fx, maps, m)
+  match parsed with
+  | none => "bad-request"
+  | some (fx, maps, m) => match stdRule fx maps m with
+    | none => "E:KeyError"
+    | some m' => "ok " ++ m'.render
+
 def handle (line : String) : String :=
   match words line with
   | "rules" :: ws =>
@@ -101,6 +145,10 @@ def handle (line : String) : String :=
   | "mol" :: ws =>
     match parseInts? ws with
     | some xs => handleMol xs
+    | none => "bad-request"
+  | "stdrule" :: ws =>
+    match parseInts? ws with
+    | some xs => handleStdRule xs
     | none => "bad-request"
   | "implicify" :: ws =>
     match (parseInts? ws).bind Mol.parse with
